@@ -192,6 +192,7 @@ type gpkg struct {
 	opaqueLenZero    bool              // the variadic dataTranscript is specialised to no data
 	lensNames        map[string]string // readable names of specialisations
 	namePrefix       string            // prefix of the def names (defs of another package emitted into this file)
+	permMode         bool              // slpgperm.go: the additional primitives of permutation.Verify are allowed
 	subPkgs          map[string]*gpkg
 	hashNil          bool // this translation run: hash.Hash parameters are nil
 	nameSuffix       string
@@ -363,6 +364,10 @@ func (p *gpkg) typeOf(e ast.Expr) *gtype {
 			return &gtype{k: gErr}
 		case "int":
 			return &gtype{k: gInt}
+		case "uint64":
+			if p.permMode { // slpgperm.go: plookup's ProofLookupVector.size; an exact Int in [0, 2^64) with the u64 operations
+				return &gtype{k: gInt, name: "uint64"}
+			}
 		case "bool":
 			return &gtype{k: gBool}
 		case "byte":
@@ -447,6 +452,10 @@ func (p *gpkg) typeOf(e ast.Expr) *gtype {
 				return &gtype{k: gBytes, n: -1}
 			}
 			n, ok := p.constInt(e.Len)
+			if se, isSel := e.Len.(*ast.SelectorExpr); !ok && p.permMode && isSel && p.isCurveImport(gexpr(se.X)) && se.Sel.Name == "SizeOfG1AffineUncompressed" {
+				// slpgperm.go: the buffer of deriveRandomness; it is overwritten as a whole by RawBytes() before it is read
+				return &gtype{k: gBytes, n: -1}
+			}
 			if !ok {
 				reject("byte array length %s", gexpr(e.Len))
 			}
@@ -605,7 +614,8 @@ func (x *gtr) zero(name string, t *gtype) cellID {
 func (x *gtr) param(name string, t *gtype, lens *[]int, ro bool) cellID {
 	var c cellID
 	switch t.k {
-	case gG, gG2, gS, gZ, gL, gBool, gBytes, gFp:
+	case gG, gG2, gS, gZ, gL, gBool, gBytes, gFp, gInt:
+		// gInt: a run-time Go `int` (permutation.Proof.size), an exact Lean Int; see slpgperm.go for the operations allowed on it
 		x.v.binders = append(x.v.binders, fmt.Sprintf("(%s : %s)", name, t.lean()))
 		c = x.newCell(name, &gv{t: t, term: name})
 	case gOpaque:
@@ -1049,6 +1059,9 @@ func (x *gtr) binary(s *gscope, e *ast.BinaryExpr) *gv {
 		if op, ok := cmp[e.Op]; ok {
 			return &gv{t: &gtype{k: gBool}, term: fmt.Sprintf("(decide (%s %s %s))", intTerm(a), op, intTerm(b))}
 		}
+		if r := x.permIntOp(e.Op, a, b); r != nil { // slpgperm.go: -, &, / on a run-time Go int (64-bit two's complement)
+			return r
+		}
 		reject("%s: run-time integer expression %s", x.fname, gexpr(e))
 	}
 	if a.t.k == gInt && b.t.k == gInt {
@@ -1219,6 +1232,9 @@ func (x *gtr) method(s *gscope, recv cellID, name string, c *ast.CallExpr) []*gv
 	rv := x.store[recv]
 	self := func() []*gv { return []*gv{x.ptrTo(recv)} }
 	nilErr := &gv{t: &gtype{k: gErr}, static: true, n: 0}
+	if rs, ok := x.permMethod(s, recv, name, c); ok { // slpgperm.go
+		return rs
+	}
 	if rs, ok := x.sigMethod(s, recv, name, c); ok {
 		return rs
 	}
@@ -1371,6 +1387,9 @@ func (x *gtr) call(s *gscope, c *ast.CallExpr) []*gv {
 		if last.t.k != gOpaque {
 			reject("%s: variadic call with a non-opaque tail", x.fname)
 		}
+	}
+	if rs, ok := x.permCall(s, c); ok { // slpgperm.go
+		return rs
 	}
 	if rs, ok := x.sigCall(s, c); ok {
 		return rs
@@ -1986,7 +2005,7 @@ func (x *gtr) rangeStmt(s *gscope, st *ast.RangeStmt, rest func() string) string
 		}
 		if valName != "" && valName != "_" {
 			ev := x.store[v.elems[i]]
-			if !ev.t.leaf() {
+			if !ev.t.leaf() && ev.t.k != gPtr { // a pointer element: the copy of the pointer refers to the same target
 				reject("%s: range value of a composite type", x.fname)
 			}
 			body.vars[valName] = x.newCell(valName, ev) // a copy of the element
@@ -2268,6 +2287,9 @@ const groupClasses = "{G G2 S L : Type} [_root_.Add G] [_root_.Sub G] [_root_.Ne
 func (p *gpkg) emit(ns, fileName, extra string) {
 	var b strings.Builder
 	b.WriteString("import GnarkVerif.Model.VerifierRes\n")
+	if p.permMode {
+		b.WriteString("import GnarkVerif.Model.VerifierInt\n") // i64sub / i64and / i64quo (slpgperm.go)
+	}
 	fmt.Fprintf(&b, "/- GENERATED by tools/goslp (slpgroup.go) from /repo/%s/%s on every run. DO NOT EDIT.\n   Group-level straight-line code of the verifier; primitives and parameters are documented at the head of slpgroup.go. -/\n", p.dir, p.file)
 	b.WriteString("set_option linter.unusedVariables false\n")
 	fmt.Fprintf(&b, "namespace GV.Gen.Verifier.%s\nopen GV.Gen.Verifier\n\n", ns)
@@ -2484,6 +2506,7 @@ func runGroup() {
 			p.emit("fflonk_"+lc, "Fflonk_"+lc+".lean", "")
 		})
 	}
+	runGroupPerm(guard) // slpgperm.go: permutation.Verify (C17 tie T)
 	for _, d := range eddsaDirs {
 		guard("eddsa "+d[0], func() {
 			p := newSigPkg("eddsa_"+d[0], d[1], "eddsa.go")
